@@ -873,12 +873,121 @@ async fn stress_task(store: Arc<dyn AsyncBlobStore>, t: usize, mut r: Rng, ops: 
     rec
 }
 
+/// duel payload: exactly 4 bytes = task (1 byte) and sequence number (3 bytes); read back as an integer
+fn duel_payload(t: usize, seq: u32) -> Vec<u8> {
+    vec![t as u8, (seq & 0xff) as u8, ((seq >> 8) & 0xff) as u8, ((seq >> 16) & 0x7f) as u8]
+}
+fn duel_value(b: &[u8]) -> i64 {
+    if b.len() == 4 {
+        u32::from_le_bytes([b[0], b[1], b[2], b[3]]) as i64
+    } else {
+        -1
+    }
+}
+#[derive(Default)]
+struct DuelRec {
+    puts: Vec<(u32, i64)>,
+    rv: Vec<i64>,
+    rw: Vec<i64>,
+    calls: usize,
+}
+
+/// "duel" round roles: a batcher stores `batches` batches of `blen` records back to back (payloads made
+/// before the start, so that it spends its time inside put_batch) ...
+async fn duel_batcher(store: Arc<dyn AsyncBlobStore>, t: usize, batches: usize, blen: usize, start: Arc<tokio::sync::Barrier>, left: Arc<AtomicU64>) -> DuelRec {
+    let mut rec = DuelRec::default();
+    let all: Vec<Vec<Vec<u8>>> = (0..batches).map(|b| (0..blen).map(|i| duel_payload(t, (b * blen + i) as u32 + 1)).collect()).collect();
+    let mut got: Vec<Option<Vec<u32>>> = vec![];
+    start.wait().await;
+    for ds in &all {
+        rec.calls += 1;
+        let refs: Vec<&[u8]> = ds.iter().map(|d| d.as_slice()).collect();
+        got.push(store.put_batch(refs).await.ok());
+        tokio::task::yield_now().await;
+    }
+    left.fetch_sub(1, Ordering::SeqCst);
+    for (ds, ids) in all.iter().zip(got) {
+        if let Some(ids) = ids {
+            if ids.len() != ds.len() {
+                // one id per input: recorded as a read that cannot be right
+                rec.rv.push(ids.len() as i64);
+                rec.rw.push(ds.len() as i64);
+            }
+            for (id, d) in ids.iter().zip(ds.iter()) {
+                rec.puts.push((*id, duel_value(d)));
+            }
+        }
+    }
+    rec
+}
+
+/// ... while a putter stores single records (and reads some back) until the batchers are done
+async fn duel_putter(store: Arc<dyn AsyncBlobStore>, t: usize, cap: usize, start: Arc<tokio::sync::Barrier>, left: Arc<AtomicU64>) -> DuelRec {
+    let mut rec = DuelRec::default();
+    let mut seq = 0u32;
+    start.wait().await;
+    while left.load(Ordering::SeqCst) > 0 && rec.puts.len() < cap {
+        rec.calls += 1;
+        seq += 1;
+        let data = duel_payload(t, seq);
+        if let Ok(id) = store.put(&data).await {
+            rec.puts.push((id, duel_value(&data)));
+            if seq % 64 == 0 {
+                rec.rv.push(store.get(id).await.map_or(-1, |b| duel_value(&b)));
+                rec.rw.push(duel_value(&data));
+            }
+        }
+        if seq % 4 == 0 {
+            tokio::task::yield_now().await;
+        }
+    }
+    rec
+}
+
+async fn duel_round(store: Arc<dyn AsyncBlobStore>, k: usize, batches: usize, blen: usize) -> (Value, usize, usize) {
+    let start = Arc::new(tokio::sync::Barrier::new(k));
+    let nb = if k == 2 { 1 } else { 2 };
+    let left = Arc::new(AtomicU64::new(nb as u64));
+    let hs: Vec<_> = (0..k)
+        .map(|t| {
+            if t < nb {
+                tokio::spawn(duel_batcher(store.clone(), t, batches, blen, start.clone(), left.clone()))
+            } else {
+                tokio::spawn(duel_putter(store.clone(), t, batches * blen / 2, start.clone(), left.clone()))
+            }
+        })
+        .collect();
+    let (mut ids, mut vs, mut rv, mut rw, mut calls) = (vec![], vec![], vec![], vec![], 0usize);
+    for h in hs {
+        match h.await {
+            Ok(r) => {
+                calls += r.calls;
+                ids.extend(r.puts.iter().map(|p| p.0));
+                vs.extend(r.puts.iter().map(|p| p.1));
+                rv.extend(r.rv);
+                rw.extend(r.rw);
+            }
+            Err(e) => return (json!({"op":"panic","in":"async store task","msg":panic_msg(e)}), 0, 0),
+        }
+    }
+    let mut fv = vec![];
+    for id in &ids {
+        fv.push(store.get(*id).await.map_or(-1, |b| duel_value(&b)));
+    }
+    let (gbok, gbv) = match store.get_batch(ids.clone()).await {
+        Ok(v) if v.len() == ids.len() => (true, v.iter().map(|b| duel_value(b)).collect::<Vec<i64>>()),
+        _ => (false, vec![]),
+    };
+    let n = ids.len();
+    (json!({"op":"as_quiesce_c","ids":ids,"vs":vs,"fv":fv,"gbok":gbok,"gbv":gbv,"rv":rv,"rw":rw,"len":store.len().await}), calls, n)
+}
+
 fn mode_storeq(a: &Args) {
     let mut tr = Tracer::new(&a.out, "paq");
     tr.max_events = 0;
     let rng0 = Rng::new(a.seed).derive("storeq");
     let rt = rt();
-    let rounds = a.get_u64("n", if a.thorough() { 400 } else { 100 }) as usize;
+    let rounds = a.get_u64("n", if a.thorough() { 400 } else { 80 }) as usize;
     let (mut calls, mut records, mut big_batches) = (0usize, 0usize, 0usize);
     static BIG: [usize; 4] = [1, 2, 17, 200];
     static SMALL: [usize; 3] = [1, 2, 17];
@@ -908,13 +1017,23 @@ fn mode_storeq(a: &Args) {
                     }
                 }
             };
-            if tr.runs % 6 == 0 {
+            if tr.runs % 4 == 0 {
                 tr.max_events = 0;
             }
-            tr.reset("pipeline", &format!("{name}@stress"), json!({"fam":"as_stress","variant":name,"tasks":k,"round":round}));
+            tr.reset("pipeline", &format!("{name}@stress"), json!({"fam":"as_stress","variant":name,"tasks":k,"round":round,"duel":name == "async_mem" && round % 2 == 1}));
             tr.max_events = 1_000_000;
             let ops = if on_disk { 6 } else { 10 };
             let sizes: &'static [usize] = if on_disk { &SMALL } else { &BIG };
+            // every second round of AsyncMemoryBlobStore is a duel: batchers (8 x put_batch of 2000, back to
+            // back) against putters that store single records for as long as the batchers run
+            if name == "async_mem" && round % 2 == 1 {
+                let (ev, c, n) = rt.block_on(duel_round(store.clone(), k, 8, 2000));
+                calls += c;
+                records += n;
+                big_batches += n / 200;
+                tr.ev(ev);
+                continue;
+            }
             let ev = rt.block_on(async {
                 let start = Arc::new(tokio::sync::Barrier::new(k));
                 let hs: Vec<_> = (0..k).map(|t| tokio::spawn(stress_task(store.clone(), t, rng.derive(&format!("t{t}")), ops, sizes, start.clone()))).collect();
